@@ -48,6 +48,11 @@ class BudgetExceeded(_Control):
     pass
 
 
+class Inconclusive(_Control):
+    """The harness cannot judge this path (e.g. the induction hypothesis of a step check does not fit the implementation):
+    counted as an inconclusive obligation - neither a pass nor a violation."""
+
+
 def _is_num(x):
     return isinstance(x, (int, float, fractions.Fraction)) and not isinstance(x, bool)
 
@@ -599,6 +604,7 @@ class Engine:
         self.cover_hits = {}
         self.violations = []
         self.errors = []
+        self.notes = []
         self._empty_model = None
         self._int_cache = {}
 
@@ -858,6 +864,9 @@ class Engine:
     def cover(self, tag):
         self.path_cover.add(tag)
 
+    def inconclusive(self, msg):
+        raise Inconclusive(msg)
+
     def out(self, name, value):
         self.outputs.append((name, value))
 
@@ -968,6 +977,10 @@ class Engine:
                     self.cover_hits[tag] = self.cover_hits.get(tag, 0) + 1
             except PathEnd:
                 self.stats["paths_vacuous"] += 1
+            except Inconclusive as inc:
+                self.stats["cut"] += 1
+                if len(self.notes) < 5:
+                    self.notes.append("inconclusive path: %s | witness=%r" % (inc, self.witness()))
             except Unsupported as u:
                 self.stats["unsupported"] += 1
                 self.errors.append("unsupported: %s | witness=%r" % (u, self.witness()))
@@ -1045,6 +1058,9 @@ class ConcreteEngine:
     def cover(self, tag):
         self.path_cover.add(tag)
 
+    def inconclusive(self, msg):
+        raise Inconclusive(msg)
+
     def out(self, name, value):
         self.outputs.append((name, value))
 
@@ -1067,3 +1083,5 @@ def run_concrete(fn, witness):
         return "violation", v.msg, e.outputs
     except PathEnd:
         return "vacuous", None, e.outputs
+    except Inconclusive as inc:
+        return "inconclusive", str(inc), e.outputs
